@@ -227,6 +227,19 @@ func (e *cacheEnv) apply(c *flowh.Caches, ev cevent) (recs [][]ref.ExpField, unk
 	k := e.keys[ev.k]
 	dataSet := ref.Set{Kind: ref.SetRaw, RawID: k.id, RawBody: probeBody}
 	switch ev.kind {
+	case "ann-cut": // an announcement that does not arrive completely: the datagram ends inside the template's field list
+		t := e.tpl(ev.k, ev.d)
+		ts := ref.Set{Kind: ref.SetTemplates, Templates: []ref.Template{t}}
+		if e.v9 && t.Options {
+			ts.Pad = (4 - (6+4*len(t.All()))%4) % 4
+		}
+		b := e.msg(ts).Encode(nil)
+		cut := 4 + ts.Pad // the last field specifier is missing (with it the padding behind it)
+		if len(t.All()) < 2 || len(b) <= cut+24 {
+			cut = 2 // a single field: cut in the middle of its specifier
+		}
+		r := flowh.Decode(e.v9, k.addr, b[:len(b)-cut], c)
+		return r.Records, false, fmt.Sprint(r.Err)
 	case "ann", "ann+data", "data+ann", "data+ann+data", "ann-two-in-one-set":
 		t := e.tpl(ev.k, ev.d)
 		ts := ref.Set{Kind: ref.SetTemplates, Templates: []ref.Template{t}}
@@ -434,7 +447,7 @@ func cacheBFS(tier string) mck.Space {
 		var evs []cevent
 		for k := range env.keys {
 			for d := range env.defs {
-				evs = append(evs, cevent{"ann", k, d}, cevent{"ann+data", k, d}, cevent{"data+ann", k, d}, cevent{"data+ann+data", k, d})
+				evs = append(evs, cevent{"ann", k, d}, cevent{"ann+data", k, d}, cevent{"data+ann", k, d}, cevent{"data+ann+data", k, d}, cevent{"ann-cut", k, d})
 				if len(env.defs[d].scope) > 0 {
 					continue
 				}
@@ -520,6 +533,12 @@ func cacheBFS(tier string) mck.Space {
 			if ev.kind == "data+ann+data" {
 				if cls, m := flowh.CompareRecords(recs, wantRecs); cls != "" {
 					bad("event-"+ev.kind, ev.k, fmt.Sprintf("%s: %s (got %v)", ev.String(env.keys, env.defs), m, flowh.DescribeRecords(recs)))
+				}
+			} else if ev.kind == "ann-cut" {
+				// nothing is expected of the cut datagram itself; the reference state does not change: what did not
+				// arrive completely is not a definition (the probes below and the content comparison judge that)
+				if len(recs) != 0 {
+					bad("event-"+ev.kind, ev.k, fmt.Sprintf("%s: a template datagram cut inside its field list yielded records %v", ev.String(env.keys, env.defs), flowh.DescribeRecords(recs)))
 				}
 			} else if ev.kind != "ann" && ev.kind != "insert" {
 				if wantUnknown {
